@@ -8,7 +8,7 @@ namespace Rbdl
 open Lean.Grind
 namespace ModelS
 
-theorem getD_set_self {β : Type} (l : List β) (i : Nat) (x d : β) (h : i < l.length) :
+theorem getD_set_selfS5 {β : Type} (l : List β) (i : Nat) (x d : β) (h : i < l.length) :
     (l.set i x).getD i d = x := by
   simp [List.getD_eq_getElem?_getD, h]
 
@@ -124,7 +124,7 @@ theorem setInertial_addBodyFixed_aux {m : ModelS α} {parent : Nat} {frame : XT 
     simp only [fixedBody, getD_append_length]
   have hbody : m1.body mp = pb := by
     subst hm1
-    simp only [body, getD_set_self _ _ _ _ hrange]
+    simp only [body, getD_set_selfS5 _ _ _ _ hrange]
   obtain ⟨hu1, hu2⟩ := hupd ⟨b.mass, b.com, b.inertia, mp, pX⟩
   simp only at hu1 hu2
   generalize hfb' : updF ⟨b.mass, b.com, b.inertia, mp, pX⟩ = fb' at *
@@ -147,7 +147,7 @@ theorem setInertial_addBodyFixed_aux {m : ModelS α} {parent : Nat} {frame : XT 
   unfold updateInertiaMatrixForBody
   simp only [hfix', if_true, hk]
   subst hm1
-  simp only [fixedBody, body, set_append_length, getD_append_length, getD_set_self _ _ _ _ hrange,
+  simp only [fixedBody, body, set_append_length, getD_append_length, getD_set_selfS5 _ _ _ _ hrange,
     List.set_set]
 
 /-! ### the movable part of `AddBody` -/
@@ -189,7 +189,7 @@ def movableResultS (m : ModelS α) (parent : Nat) (frame : XT α) (j : Joint α)
     sz := m.sz.push (newId + 1) }
 
 omit [DecidableEq α] in
-theorem addBodyMovable_eq (m : ModelS α) (parent : Nat) (frame : XT α) (j : Joint α) (b : Body α)
+theorem addBodyMovable_eqS5 (m : ModelS α) (parent : Nat) (frame : XT α) (j : Joint α) (b : Body α)
     (name : String) :
     m.addBodyMovable parent frame j b name
       = if name ≠ "" ∧ m.hasName name then (m, .error .duplicateName)
@@ -206,7 +206,7 @@ theorem setterOK_addBodyMovable (m : ModelS α) (parent : Nat) (frame : XT α) (
     SetterOK (fun b => m.addBodyMovable parent frame j b name) := by
   intro b m1 id hadd updB updF
   simp only at hadd ⊢
-  rw [addBodyMovable_eq] at hadd ⊢
+  rw [addBodyMovable_eqS5] at hadd ⊢
   split at hadd
   · cases hadd
   · rename_i hname
@@ -237,7 +237,7 @@ theorem addBodyMovable_lengths {m : ModelS α} {parent : Nat} {frame : XT α} {j
     {b : Body α} {name : String} {m1 : ModelS α} {id : Nat}
     (hadd : m.addBodyMovable parent frame j b name = (m1, .ok id)) :
     m1.I.length = m.I.length + 1 ∧ m1.bodies.length = m.bodies.length + 1 := by
-  rw [addBodyMovable_eq] at hadd
+  rw [addBodyMovable_eqS5] at hadd
   split at hadd
   · cases hadd
   · simp only [Prod.mk.injEq, Except.ok.injEq] at hadd
@@ -360,15 +360,15 @@ end ModelS
 /-! ### a concrete model over `Rat` -/
 namespace C15.Ex
 
-def jz : Joint Rat := Joint.revolute ⟨0, 0, 1⟩
-def jfix : Joint Rat := ⟨.fixed, [], 0, 0, noCustom⟩
+def jzS5 : Joint Rat := Joint.revolute ⟨0, 0, 1⟩
+def jfixS5 : Joint Rat := ⟨.fixed, [], 0, 0, noCustom⟩
 /-- the initial model with one revolute body `A` … -/
-def mA : ModelS Rat := (ModelS.init.addBody 0 X jz A "a").1
-theorem mA_add : ModelS.init.addBody 0 X jz A "a" = (mA, .ok 1) := rfl
+def mA : ModelS Rat := (ModelS.init.addBody 0 X jzS5 A "a").1
+theorem mA_add : ModelS.init.addBody 0 X jzS5 A "a" = (mA, .ok 1) := rfl
 /-- … and `B` fixed to it -/
-def mB : ModelS Rat := (mA.addBody 1 X jfix B "b").1
+def mB : ModelS Rat := (mA.addBody 1 X jfixS5 B "b").1
 theorem mA_body : mA.body (mA.fixedTarget 1 X).1 = A := rfl
-theorem mB_add : mA.addBody 1 X jfix B "b" = (mB, .ok fixedDisc) := by
+theorem mB_add : mA.addBody 1 X jfixS5 B "b" = (mB, .ok fixedDisc) := by
   have hb : ¬(B.mass = 0 ∧ B.inertia = M3.zero) := fun h => B_mass h.1
   have h : (mA.addBodyFixed 1 X B "b").2 = .ok (mA.fixedBodies.length + fixedDisc) :=
     ModelS.addBodyFixed_snd (by decide) (by rw [mA_body, Body.join_eq hb AB_mass]; rfl)
@@ -377,7 +377,7 @@ theorem mB_add : mA.addBody 1 X jfix B "b" = (mB, .ok fixedDisc) := by
   exact Prod.ext rfl h
 theorem mB_fixedBody : mB.fixedBody (fixedDisc - fixedDisc) = ⟨B.mass, B.com, B.inertia, 1, X⟩ :=
   ModelS.addBodyFixed_fixedBody
-    (by rw [← ModelS.addBody_fixed mA 1 X jfix B "b" rfl]; exact mB_add)
+    (by rw [← ModelS.addBody_fixed mA 1 X jfixS5 B "b" rfl]; exact mB_add)
 
 end C15.Ex
 end Rbdl
